@@ -68,11 +68,11 @@ def cases(rng, tier, Case):
             url = obf(rng, url)
         d = mdgen.clean_utf8(doc_for(rng, url))
         cfg = rng.choice(["Cs", "CsS", mdgen.gen_cfg(rng, forbid="xX", require="lirap")])
-        res.append(Case("parse %s 100 R %s" % (cfg, hx(d)), "url", {"cfg": cfg, "src": hx(d), "url": url}))
+        res.append(Case("parse %s 100 TR %s" % (cfg, hx(d)), "url", {"cfg": cfg, "src": hx(d), "url": url}))
     for _ in range(n // 5):
         d = mdgen.clean_utf8(mdgen.gen_doc(rng))
         cfg = mdgen.gen_cfg(rng, forbid="xX")
-        res.append(Case("parse %s 100 R %s" % (cfg, hx(d)), "gen", {"cfg": cfg, "src": hx(d), "url": ""}))
+        res.append(Case("parse %s 100 TR %s" % (cfg, hx(d)), "gen", {"cfg": cfg, "src": hx(d), "url": ""}))
     # several constructs in one document: an accepted URL first, then a rejected one with the same scheme / label / syntax
     # (seed C04-7: verdict remembered per scheme; seed C04-8: a later definition of a label that is already defined)
     good = ["data:image/png;base64,AA", "data:image/gif;x", "DATA:image/jpeg;a", "http://x.y/", "mailto:a@b.c", "/safe", "data:image/webp;q"]
@@ -83,13 +83,13 @@ def cases(rng, tier, Case):
             for sep in (" ", "\n\n", "\n\n> "):
                 f1, f2 = rng.choice(forms), rng.choice(forms)
                 for d in (f1(g) + sep + f2(b), f1(g) + sep + f1(b), f1(g) + " " + f1(g) + sep + f2(b) + " " + f1(b)):
-                    res.append(Case("parse Cs 100 R %s" % hx(d), "sequence", {"cfg": "Cs", "src": hx(d), "url": b, "literal": [b]}))
+                    res.append(Case("parse Cs 100 TR %s" % hx(d), "sequence", {"cfg": "Cs", "src": hx(d), "url": b, "literal": [b]}))
             for d in ("[x]: %s\n[x]: %s\n\n[x]" % (g, b), "[x]: %s\n\n[X]: %s 't'\n\n[x] [X]" % (g, b), "> [x]: %s\n\n[x]: <%s>\n\n![x]" % (g, b),
                       "[x]: %s\n[y]: %s\n[x]: %s\n\n[x] [y]" % (g, g, b)):
-                res.append(Case("parse Cs 100 R %s" % hx(d), "redefine", {"cfg": "Cs", "src": hx(d), "url": b, "literal": [b]}))
+                res.append(Case("parse Cs 100 TR %s" % hx(d), "redefine", {"cfg": "Cs", "src": hx(d), "url": b, "literal": [b]}))
     for b in bad:
         for d in ("[a](%s)" % b, "<%s>" % b, "![a](%s \"t\")" % b, "[r]: %s\n\n[r]" % b, "[a][r]\n\n[r]: <%s>" % b, "- [r]: %s 't'\n\n![r]" % b):
-            res.append(Case("parse Cs 100 R %s" % hx(d), "literal", {"cfg": "Cs", "src": hx(d), "url": b, "literal": [b]}))
+            res.append(Case("parse Cs 100 TR %s" % hx(d), "literal", {"cfg": "Cs", "src": hx(d), "url": b, "literal": [b]}))
     for _ in range(n // 3):
         url = rng.choice(SCHEMES) + rng.choice(TAILS)
         for _ in range(rng.choice([0, 1, 2])):
@@ -137,6 +137,11 @@ def oracle(case, io, mo):
         for name in ("href", "src"):
             if name in attrs and browser_dangerous(attrs[name]):
                 return "<%s %s=%r> would be interpreted by a browser as a dangerous URL" % (tag, name, attrs[name][:60])
+    # the destinations kept in the tree (what a custom renderer or a link-rewriting plugin re-emits): seed C04-10
+    from parsecommon import parse_tree, text_arg
+    for n in parse_tree(f["tree"]):
+        if n.kind in ("Link", "Image", "Autolink") and browser_dangerous(text_arg(n, 0)):
+            return "%s node holds the destination %r, which a browser would interpret as a dangerous URL" % (n.kind, text_arg(n, 0)[:60])
     for lit in case.params.get("literal", []):
         # a construct whose destination is rejected stays literal text
         from parsecommon import strip_tags_text
